@@ -51,7 +51,7 @@ POOL = ["a", "b", "c", "x", "y"]
 INT_OPS = ["+", "-", "*"]
 CMP_OPS = ["<", ">", "<=", ">=", "==", "!="]
 ALL_FEATURES = frozenset(["assign", "update", "while", "for", "match", "closure", "fundef", "str", "list", "dbg", "nonascii", "print",
-                          "hint", "annot", "tuple", "shadowbias", "break"])
+                          "hint", "annot", "tuple", "shadowbias", "break", "closure2"])
 MODEL_FEATURES = frozenset(["assign", "while", "closure", "fundef", "print", "dbg"])
 
 
@@ -212,13 +212,14 @@ class Gen:
             else:
                 n, u = c
                 if self.clo_pure.get(u, False) or not self.pure_ctx:
-                    return {"k": "call", "f": self.var(n, u), "args": [self.expr("Int", d + 1)]}
+                    return {"k": "call", "f": self.var(n, u), "args": [self.expr("Int", d + 1) for _ in range(self.clo_arity.get(u, 1))]}
         vs = self.visible(ty)
         if vs:
             return self.var(*self.pick(vs))
         return {"k": "int", "v": self.pick([1, 2, 6])} if ty == "Int" else self.expr(ty, 3)
 
     clo_pure = {}
+    clo_arity = {}
 
     def if_expr(self, ty, d):
         c = self.expr("Bool", d + 1)
@@ -264,7 +265,17 @@ class Gen:
         pure = self.r.random() < 0.7 or bool(self.pure_ctx)
         if pure:
             self.pure_ctx.append(1)
-        self.scopes.append({n: ("Int", u)})
+        ps = [(n, u)]
+        sc = {n: ("Int", u)}
+        if "closure2" in self.f and self.r.random() < 0.4:
+            n2 = self.bname()
+            while n2 == n:
+                n2 = "q%d" % self.nid()
+            u2 = self.nid()
+            ps.append((n2, u2))
+            sc[n2] = ("Int", u2)
+        phints = [("hint" in self.f and self.r.random() < 0.4) for _ in ps]
+        self.scopes.append(sc)
         saved_ld, self.loop_depth = self.loop_depth, 0      # a closure body is not inside the enclosing loop
         body = []
         if self.r.random() < 0.4 and d < 2:
@@ -276,7 +287,7 @@ class Gen:
         self.scopes.pop()
         if pure:
             self.pure_ctx.pop()
-        return {"k": "fun", "ps": [(n, u)], "body": body, "pure": pure}
+        return {"k": "fun", "ps": ps, "phints": phints, "body": body, "pure": pure}
 
     # ---- statements
     def let_stmt(self, d, ty=None):
@@ -289,6 +300,7 @@ class Gen:
         u = self.nid()
         if ty == "Fn":
             self.clo_pure[u] = e.get("pure", False) if e["k"] == "fun" else self.clo_pure.get(e.get("b"), False)
+            self.clo_arity[u] = len(e["ps"]) if e["k"] == "fun" else self.clo_arity.get(e.get("b"), 1)
         self.scopes[-1][n] = (ty, u)
         hint = None
         if "hint" in self.f and ty in HINTS and self.r.random() < 0.35:
@@ -518,6 +530,8 @@ class Printer:
                 if i:
                     self.w(", ")
                 self.name(n, u)
+                if (e.get("phints") or [False] * (i + 1))[i]:
+                    self.w(": Int")
             self.w(") ")
             e["blk"] = self.block(e["body"], ind)
         elif k == "if":
@@ -757,6 +771,7 @@ def walk(e, f):
 def gen_program(rng, size=8, features=ALL_FEATURES, pool=POOL):
     g = Gen(rng, size=size, features=features, pool=pool)
     g.clo_pure = {}
+    g.clo_arity = {}
     prog = g.program()
     return prog
 
